@@ -316,6 +316,84 @@ def dro_exptset_order(ctx, seed):
         ctx.count('dro-exptset-order:agree')
 
 
+def dro_redeclare_sets(ctx, seed):
+    """the support / probability sets of an ambiguity set declared twice (a provisional declaration replaced by the final
+    one, before or after a first solve) == the final declaration alone; an expectation set added after a first solve
+    == declared up front"""
+    from rsome import dro, E
+    r = np.random.default_rng(seed)
+    ctx.search_cases += 1; ctx.evaluations += 1
+    S = int(r.integers(2, 4))
+    lo = r.integers(-3, 1, S).astype(float); hi = lo + r.integers(1, 4, S)
+    plo = np.maximum(1.0 / S - 0.2, 0.0); phi = 1.0 / S + 0.2
+    mean_hi = float(np.mean((lo + hi) / 2) + 0.25)
+    g = float(r.choice([1.0, 2.0, -1.0])); per_scen = bool(r.random() < 0.5)
+    mode = str(r.choice(['final-only', 'provisional-then-final', 'solve-then-redeclare']))
+    case = {"redeclare_seed": seed, "mode": mode}
+
+    def build(mode):
+        m = dro.Model(S); x = m.dvar(); y = m.dvar(); z = m.rvar()
+        y.adapt(z)
+        for s in range(S):
+            y.adapt(s)
+        fs = m.ambiguity()
+        def supp(l, h):
+            for s in range(S):
+                (fs[s] if per_scen else fs[s]).suppset(z >= l[s], z <= h[s])
+        def final_sets():
+            supp(lo, hi)
+            fs.probset(m.p >= plo, m.p <= phi)
+        if mode != 'final-only':
+            supp(lo - 2, hi + 3)                                  # provisional, larger supports
+            fs.probset(m.p >= 0.0, m.p <= 1.0 / S + 0.05)         # provisional, different probability box
+        if mode in ('provisional-then-final', 'final-only'):
+            final_sets()
+        m.minsup(E(x + y), fs)
+        m.st(y >= g * z, x >= -2, y <= 50, x >= 0.5 * y - 4)
+        if mode == 'solve-then-redeclare':
+            try:
+                C.solve_model(m)
+            except Exception:
+                pass
+            final_sets()
+        if mode == 'final-only':
+            pass
+        fs.exptset(E(z) <= mean_hi) if mode != 'solve-then-redeclare' else None
+        if mode == 'solve-then-redeclare':
+            fs.exptset(E(z) <= mean_hi)                           # added after the first solve
+        return m
+    def build_ref():
+        m = dro.Model(S); x = m.dvar(); y = m.dvar(); z = m.rvar()
+        y.adapt(z)
+        for s in range(S):
+            y.adapt(s)
+        fs = m.ambiguity()
+        for s in range(S):
+            fs[s].suppset(z >= lo[s], z <= hi[s])
+        fs.probset(m.p >= plo, m.p <= phi)
+        fs.exptset(E(z) <= mean_hi)
+        m.minsup(E(x + y), fs)
+        m.st(y >= g * z, x >= -2, y <= 50, x >= 0.5 * y - 4)
+        return m
+    def sol(m):
+        try:
+            return C.solve_model(m)
+        except RuntimeError:
+            return None
+    try:
+        with C.quiet():
+            mA = build(mode); mB = build_ref()
+        vA, vB = sol(mA), sol(mB)
+    except C.SkipCase:
+        ctx.count('dro-redeclare:skipped'); return
+    except Exception as ex:
+        ctx.hit('dro-redeclare-raises:' + type(ex).__name__, {"error": str(ex)[:200]}, case); return
+    if (vA is None) != (vB is None) or (vA is not None and abs(vA - vB) > 1e-5 * (1 + abs(vB))):
+        ctx.hit('dro-redeclared-set-differs:' + mode, {"through_history": vA, "final_declaration_only": vB}, case)
+    else:
+        ctx.count('dro-redeclare:agree:' + mode)
+
+
 def expression_reuse(ctx):
     """using an expression inside one construct does not change what it means elsewhere: `e <= 0.5` written before or
     after `E(maxof(e, ..))` is the same robust constraint"""
@@ -417,6 +495,8 @@ def run(ctx):
         resolve_after_add(ctx, int(ctx.rng.integers(2 ** 31)))
     for k in range(ctx.n(16, 200)):
         dro_adapt_after_solve(ctx, int(ctx.rng.integers(2 ** 31)))
+    for k in range(ctx.n(30, 300)):
+        dro_redeclare_sets(ctx, int(ctx.rng.integers(2 ** 31)))
     for k in range(ctx.n(40, 400)):
         dro_exptset_order(ctx, int(ctx.rng.integers(2 ** 31)))
     for k in range(ctx.n(60, 1200)):
@@ -432,6 +512,8 @@ def replay(rp):
         search_one(ctx, case['desc'], case['history_seed'])
     elif 'resolve_seed' in case:
         resolve_after_add(ctx, case['resolve_seed'])
+    elif 'redeclare_seed' in case:
+        dro_redeclare_sets(ctx, case['redeclare_seed'])
     elif 'dro_exptset_seed' in case:
         dro_exptset_order(ctx, case['dro_exptset_seed'])
     elif 'dro_seed' in case:
